@@ -1130,6 +1130,57 @@ func unsyncedConfigAccess(method, path string, body []byte, out io.Writer) error
 		parts = parts[:len(parts)-1]
 	}
 
+	// arrayDest performs the operation where the destination is an element of
+	// (or, for POST, the end of) the slice arr; set stores the resulting slice
+	// back where arr came from (appending to a slice copies the slice header,
+	// which does not replace the original one like we want)
+	arrayDest := func(arr []any, set func([]any)) error {
+		var idx int
+		if method != http.MethodPost {
+			idxStr := parts[len(parts)-1]
+			idx, err = strconv.Atoi(idxStr)
+			if err != nil {
+				return fmt.Errorf("[%s] invalid array index '%s': %v",
+					path, idxStr, err)
+			}
+			if idx < 0 || (method != http.MethodPut && idx >= len(arr)) || idx > len(arr) {
+				return fmt.Errorf("[%s] array index out of bounds: %s", path, idxStr)
+			}
+		}
+
+		switch method {
+		case http.MethodGet:
+			err = enc.Encode(arr[idx])
+			if err != nil {
+				return fmt.Errorf("encoding config: %v", err)
+			}
+		case http.MethodPost:
+			if ellipses {
+				valArray, ok := val.([]any)
+				if !ok {
+					return fmt.Errorf("final element is not an array")
+				}
+				set(append(arr, valArray...))
+			} else {
+				set(append(arr, val))
+			}
+		case http.MethodPut:
+			// avoid creation of new slice and a second copy (see
+			// https://github.com/golang/go/wiki/SliceTricks#insert)
+			arr = append(arr, nil)
+			copy(arr[idx+1:], arr[idx:])
+			arr[idx] = val
+			set(arr)
+		case http.MethodPatch:
+			arr[idx] = val
+		case http.MethodDelete:
+			set(append(arr[:idx], arr[idx+1:]...))
+		default:
+			return fmt.Errorf("unrecognized method %s", method)
+		}
+		return nil
+	}
+
 	var ptr any = rawCfg
 
 traverseLoop:
@@ -1137,51 +1188,11 @@ traverseLoop:
 		switch v := ptr.(type) {
 		case map[string]any:
 			// if the next part enters a slice, and the slice is our destination,
-			// handle it specially (because appending to the slice copies the slice
-			// header, which does not replace the original one like we want)
+			// handle it specially (see arrayDest)
 			if arr, ok := v[part].([]any); ok && i == len(parts)-2 {
-				var idx int
-				if method != http.MethodPost {
-					idxStr := parts[len(parts)-1]
-					idx, err = strconv.Atoi(idxStr)
-					if err != nil {
-						return fmt.Errorf("[%s] invalid array index '%s': %v",
-							path, idxStr, err)
-					}
-					if idx < 0 || (method != http.MethodPut && idx >= len(arr)) || idx > len(arr) {
-						return fmt.Errorf("[%s] array index out of bounds: %s", path, idxStr)
-					}
-				}
-
-				switch method {
-				case http.MethodGet:
-					err = enc.Encode(arr[idx])
-					if err != nil {
-						return fmt.Errorf("encoding config: %v", err)
-					}
-				case http.MethodPost:
-					if ellipses {
-						valArray, ok := val.([]any)
-						if !ok {
-							return fmt.Errorf("final element is not an array")
-						}
-						v[part] = append(arr, valArray...)
-					} else {
-						v[part] = append(arr, val)
-					}
-				case http.MethodPut:
-					// avoid creation of new slice and a second copy (see
-					// https://github.com/golang/go/wiki/SliceTricks#insert)
-					arr = append(arr, nil)
-					copy(arr[idx+1:], arr[idx:])
-					arr[idx] = val
-					v[part] = arr
-				case http.MethodPatch:
-					arr[idx] = val
-				case http.MethodDelete:
-					v[part] = append(arr[:idx], arr[idx+1:]...)
-				default:
-					return fmt.Errorf("unrecognized method %s", method)
+				err = arrayDest(arr, func(a []any) { v[part] = a })
+				if err != nil {
+					return err
 				}
 				break traverseLoop
 			}
@@ -1255,6 +1266,15 @@ traverseLoop:
 			if partInt < 0 || partInt >= len(v) {
 				return fmt.Errorf("[/%s] array index out of bounds: %s",
 					strings.Join(parts[:i+1], "/"), part)
+			}
+			// likewise if the slice that is our destination is itself
+			// an element of a slice
+			if arr, ok := v[partInt].([]any); ok && i == len(parts)-2 {
+				err = arrayDest(arr, func(a []any) { v[partInt] = a })
+				if err != nil {
+					return err
+				}
+				break traverseLoop
 			}
 			ptr = v[partInt]
 
